@@ -13,7 +13,7 @@ RULE = ('model level: full product of (native-grid configuration: one molecule u
         'level: every contiguous sub-range of a molecule\'s own points and every contiguous sub-range of a finer '
         'foreign grid, cross-section and k-table layouts.  Non-trivial = the request is a proper sub-range.')
 ASSUME = ['observation widths = mid-point implied widths (the stated width condition holds by construction)',
-          'emission letters keep the column optical depth below the clamp so the comparison is exact',
+          'emission: exact comparison unless the column optical depth reaches the clamp (then the (2N+1) exp(-10) B_max licence; counted in emission-licence-applied)',
           'numba/numpy trusted']
 
 TG = fx.T_GRIDS[3]
@@ -42,7 +42,7 @@ def install(cfg, mag, kind):
     gk = 'log' if cfg.endswith('log') else 'uniform'
     nat = native(gk)
     per = None
-    m = MAGS[mag]
+    m = MAGS[mag] * (0.3 if kind == 'emission' else 1.0)
     if mag == 'mixed':
         per = 10 ** np.linspace(-33, -20, len(nat))
         if kind == 'emission':
@@ -53,7 +53,7 @@ def install(cfg, mag, kind):
     tabs = {'H2O': t1}
     if cfg.startswith('two'):
         cg = coarse('nested' if 'nested' in cfg else 'off', nat)
-        t2 = fx.table(3, 3, len(cg), 1.0, salt=('c13', 'CH4')) * (1e-27 if mag != 'thin' else 1e-31) * 30
+        t2 = fx.table(3, 3, len(cg), 1.0, salt=('c13', 'CH4')) * (1e-27 if mag != 'thin' else 1e-31) * (30 if kind != 'emission' else 1.5)
         OpacityCache().add_opacity(fx.TinyOp('CH4', cg, TG, PG, t2))
         grids['CH4'] = cg
         tabs['CH4'] = t2
@@ -93,6 +93,7 @@ def model_fn(case):
         r.check(False, 'no-exception', 'exception/%s/%s' % (type(e).__name__, tag), exc=repr(e), request=req)
         return r
     gr, sr, tr = np.array(gr, float), np.array(sr, float), np.array(tr, float)
+    emission_lic = 0.0
     idx = np.searchsorted(gf, gr)
     ok = len(gr) > 0 and np.all(idx < len(gf)) and np.all(gf[np.minimum(idx, len(gf) - 1)] == gr)
     if not r.check(bool(ok), 'restricted-grid-subset-of-native', 'grid-subset/' + tag, got=gr):
@@ -122,14 +123,35 @@ def model_fn(case):
             r.check(bool(np.all(np.abs(sr - sf[idx]) <= slack + 1e-9 * sf[idx])), 'restricted-spectrum-equals-full',
                     'spectrum-licensed/' + tag)
     else:
-        r.eq(sr, sf[idx], 'restricted-spectrum-equals-full', 'spectrum/' + tag, request=req)
+        # emission: the clamp at tau >= 10 is decided on the computed grid.  It can only trigger when some
+        # cumulative vertical optical depth reaches 10 at every computed wavenumber; then each of the at most
+        # 2N+1 transmittance terms may be dropped, each worth at most exp(-10) x the hottest-layer blackbody ratio.
+        from mc.ref import rt
+        dens = np.asarray(m.densityProfile, float)
+        dzv = np.asarray(m.deltaz, float)
+        col = np.zeros(len(gf))
+        for c in m.contribution_list:
+            col = col + np.sum(np.asarray(c.sigma_xsec, float) * (dens * dzv)[:, None], axis=0)
+        lic = 0.0
+        if col.max() >= 9.9:
+            Tm = float(np.max(m.temperatureProfile))
+            ratio = rt.planck_pi(gr, Tm) / rt.planck_pi(gr, m.star.temperature) * (m.planet.fullRadius / m.star.radius) ** 2
+            lic = (2 * m.nLayers + 1) * math.exp(-10) * ratio
+            r.count('emission-licence-applied')
+        emission_lic = lic
+        r.check(bool(np.all(np.abs(sr - sf[idx]) <= lic + 1e-9 * np.abs(sf[idx]))), 'restricted-spectrum-equals-full',
+                'spectrum/' + tag, request=req, got=sr, want=sf[idx], licence=lic)
     # binned to the observation (widths implied by the mid-points => the stated condition holds)
     if len(req) >= 2:
         w = compute_bin_edges(req)[-1]
         b = FluxBinner(req, w)
         bf = np.array(b.bindown(gf, sf)[1], float)
         br = np.array(b.bindown(gr, sr)[1], float)
-        r.eq(br, bf, 'binned-restricted-equals-binned-full', 'binned/' + tag, rtol=1e-9, request=req)
+        blic = 0.0
+        if case['kind'] == 'emission' and np.ndim(emission_lic) > 0:
+            blic = float(np.max(emission_lic))
+        r.check(bool(np.all(np.abs(br - bf) <= blic + 1e-9 * np.abs(bf))), 'binned-restricted-equals-binned-full',
+                'binned/' + tag, request=req, got=br, want=bf, licence=blic)
     r.nontrivial = len(gr) < len(gf)
     r.observe(sr)
     return r
